@@ -1044,7 +1044,7 @@ pub fn run_c14(rep: &mut Report) {
             adv_histories.push(history(&mut rng, &focus, &uni, len));
         }
         adv_histories.push((0..70_000).map(|i| HOp::Ev(if i % 2 == 0 { KeyCode::A } else { KeyCode::B }, KeyState::Down)).collect());
-        for period in [255usize, 256, 257, 65_535, 65_536, 65_537] {
+        for period in [253usize, 254, 255, 256, 257, 258, 259, 65_533, 65_534, 65_535, 65_536, 65_537, 65_538, 65_539] {
             for (tog, last) in [(KeyCode::CapsLock, KeyCode::LShift), (KeyCode::LShift, KeyCode::LControl), (KeyCode::NumpadLock, KeyCode::RAltGr)] {
                 let mut v = vec![HOp::Ev(KeyCode::Numpad7, KeyState::Down), HOp::Ev(KeyCode::A, KeyState::Down)];
                 v.extend((0..period - 1).map(|_| HOp::Ev(tog, KeyState::Down)));
@@ -1116,7 +1116,7 @@ pub fn run_c14(rep: &mut Report) {
                     std::thread::spawn(move || {
                         let mut all = Vec::new();
                         for k in 9..=kmax {
-                            let ns: &[i64] = if k <= 20 { &[0, -1, 1] } else { &[0] };
+                            let ns: &[i64] = if k <= 18 { &[0, -1, 1, -2, 2, -3, 3] } else { &[0] };
                             for d in ns {
                                 if let Ok(obs) = guarded(|| big_aba(AdvLayout, KeyCode::A, tog, alt, last, ((1i64 << k) + d) as u64)) {
                                     all.push((k, obs));
